@@ -16,7 +16,7 @@ namespace Forest
 /-- No restriction. -/
 def Any : Nat → Prop := fun _ => True
 
-variable {S : Nat → Prop}
+variable {S T : Nat → Prop}
 
 theorem vstep_append_any (f : Forest) (p c : Nat) : VStep S Any f (f.append p c).1 :=
   vstep_append f p c (fun _ _ => trivial) (fun _ _ => trivial)
@@ -59,7 +59,7 @@ theorem hv_of_mapGetNode {f : Forest} {k : MapKind} {p key : Nat} {n : HTree}
 
 theorem vstep_mapInsert (f : Forest) (k : MapKind) (parent : Nat) (entry : Value)
     (hS : ∀ n, f.mapGetNode k parent (entryKey entry) = some n → S n.handle) :
-    VStep S Any f (f.mapInsert k parent entry).1 := by
+    VStep S T f (f.mapInsert k parent entry).1 := by
   unfold mapInsert
   split
   · exact VStep.refl f
@@ -70,7 +70,7 @@ theorem vstep_mapInsert (f : Forest) (k : MapKind) (parent : Nat) (entry : Value
 
 theorem vstep_mapInsertNode (f : Forest) (k : MapKind) (parent node : Nat)
     (hS : ∀ v n, f.value? node = some v → f.mapGetNode k parent (entryKey v) = some n → S n.handle) :
-    VStep S Any f (f.mapInsertNode k parent node).1 := by
+    VStep S T f (f.mapInsertNode k parent node).1 := by
   unfold mapInsertNode
   cases hv' : f.value? node with
   | none => exact VStep.refl f
@@ -103,7 +103,7 @@ theorem vstep_mapClear (f : Forest) (k : MapKind) (parent : Nat) :
 
 theorem vstep_appendEntryNode (f : Forest) (k : MapKind) (parent child : Nat)
     (hS : ∀ x ∈ f.entryTarget k parent child, S x) :
-    VStep S Any f (f.appendEntryNode k parent child).1 := by
+    VStep S T f (f.appendEntryNode k parent child).1 := by
   unfold appendEntryNode
   split
   · exact VStep.refl f
@@ -121,8 +121,10 @@ theorem vstep_appendEntryNode (f : Forest) (k : MapKind) (parent child : Nat)
         simp [h2]
 
 theorem vstep_anyAppend (f : Forest) (parent child : Nat)
-    (hS : ∀ x ∈ (Call.anyAppend parent child).targets f, S x) :
-    VStep S Any f (f.anyAppend parent child).1 := by
+    (hS : ∀ x ∈ (Call.anyAppend parent child).targets f, S x)
+    (hT1 : ∀ q, f.prevSibling child = some q → T q)
+    (hT2 : ∀ q, (f.afterOldSite child).lastChild parent = some q → T q) :
+    VStep S T f (f.anyAppend parent child).1 := by
   unfold anyAppend
   split
   · rename_i a b hv'
@@ -131,7 +133,12 @@ theorem vstep_anyAppend (f : Forest) (parent child : Nat)
   · rename_i a b hv'
     apply vstep_appendEntryNode
     intro x hx; apply hS; simp only [Call.targets, hv']; exact hx
-  · exact vstep_append_any f _ _
+  · exact vstep_append f _ _ hT1 hT2
+
+theorem vstep_anyAppend_any (f : Forest) (parent child : Nat)
+    (hS : ∀ x ∈ (Call.anyAppend parent child).targets f, S x) :
+    VStep S Any f (f.anyAppend parent child).1 :=
+  vstep_anyAppend f parent child hS (fun _ _ => trivial) (fun _ _ => trivial)
 
 theorem isElement_hv {f : Forest} {c : Nat} (ht : f.isElement c = true) :
     ∃ n, (c, Value.element n) ∈ hvList f.roots := by
